@@ -82,21 +82,36 @@ def lenient_ascii_candidates(d, data):
     return out
 
 
+RESET = 'reset'          # marker in a chunk list: the receiver's owner calls resetFrame() here
+
+
 def check(run, case):
     framing, d, chunks = case['framing'], case['dir'], case['chunks']
     known_ctx = case.get('context', [])          # [(spec message, uid)] of the untouched valid frames in the stream
     fr = new_framer(framing, d)
-    delivered, excs = [], 0
+    segments, excs = [([], [])], 0          # (chunks, deliveries) between two resets of the receiver
     for c in chunks:
         try:
-            fr.processIncomingPacket(c, delivered.append, [1], single=True)
+            if c == RESET:
+                fr.resetFrame()          # what a server does after an idle timeout and a client before its next request
+                segments.append(([], []))
+                continue
+            segments[-1][0].append(c)
+            fr.processIncomingPacket(c, segments[-1][1].append, [1], single=True)
         except Exception:  # noqa
             excs += 1
     run.count('corruptions:%s' % framing)
     run.count('exceptions_escaped', excs)
-    run.count('deliveries', len(delivered))
-    if not delivered:
-        return True
+    run.count('deliveries', sum(len(dl) for _, dl in segments))
+    ok = True
+    for seg_chunks, seg_delivered in segments:
+        if seg_delivered:
+            # a delivery is justified by the bytes received since the receiver was last reset
+            ok = _judge(run, case, framing, d, seg_chunks, seg_delivered, known_ctx) and ok
+    return ok
+
+
+def _judge(run, case, framing, d, chunks, delivered, known_ctx):
     stream = b''.join(chunks)
     cands = None
     ok = True
@@ -304,11 +319,20 @@ def run(run):
                         chunks, context = [bad, f2], [(ctx2[0], ctx2[1])]
                     if idx % 7 == 0:
                         chunks = [b''.join(chunks)]          # everything in one read
+                    elif idx % 7 == 3 and label[0] in ('flip1', 'subst') and len(bad) == len(frame):
+                        # the intact frame starts to arrive and is abandoned (its owner resets the receiver), then the damaged one comes
+                        # whole: nothing computed for the abandoned bytes may count for the damaged frame
+                        p = label[1] // 8 if label[0] == 'flip1' else label[1]
+                        if p + 1 < len(frame):
+                            k = r.randrange(p + 1, len(frame))
+                            # (half of the time the receiver has already handled a frame: a used receiver is in another state than a new one)
+                            chunks, context = ([f1, frame[:k], RESET, bad], [(ctx1[0], ctx1[1])]) if idx % 2 else ([frame[:k], RESET, bad], [])
+                            run.count('abandoned_then_damaged')
                     case = {'framing': framing, 'dir': d, 'chunks': chunks, 'context': context, 'corruption': list(label), 'original': frame}
                     ok = check(run, case)
                     run.count('kind:%s' % label[0])
                     run.case(h64((framing, d, bad, ctxsel)), True,
-                             sample={'framing': framing, 'direction': d, 'original': frame.hex(), 'corruption': list(label), 'fed': [c.hex() for c in chunks],
+                             sample={'framing': framing, 'direction': d, 'original': frame.hex(), 'corruption': list(label), 'fed': [c.hex() if isinstance(c, bytes) else c for c in chunks],
                                      'verdict': 'no unjustified delivery' if ok else 'unjustified delivery'},
                              sample_class=(framing, label[0]))
     run.floor('corruptions per framing (min)', min(run.counters.get('corruptions:%s' % f, 0) for f in FRAMINGS), 5000 if run.shard is None else 300)
